@@ -826,11 +826,8 @@ pub fn invalid_reason(world: &World) -> Option<String> {
                 if !seen.insert(k) {
                     return Some(format!("duplicate attribute {k}"));
                 }
-                if k.is_empty()
-                    || !k
-                        .bytes()
-                        .all(|c| c.is_ascii_alphanumeric() || c == b'-' || c == b'_')
-                {
+                // the tag grammar: any alphanumeric character (not just ASCII), `-`, `_`
+                if k.is_empty() || !k.chars().all(|c| c.is_alphanumeric() || c == '-' || c == '_') {
                     return Some(format!("attribute name {k:?}"));
                 }
                 if (v.contains('"') && v.contains('\'')) || v.contains('\n') || v.contains('\r') {
